@@ -830,3 +830,75 @@ def all_leaf_uses(prog):
             rec(c)
     rec(prog)
     return out
+
+
+# --------------------------------------------------------------------------
+# directed families (added after seeded regressions slipped through the undirected generator)
+def misaligned_take(rng):
+    """fancy index / slice over an elemwise of two differently chunked operands: the optimized plan's chunks
+    differ from the advertised ones, so the materialization bridge has to restore them"""
+    n = rng.choice([8, 11, 12, 16])
+    a = (np.arange(n, dtype="int64") * 3) % 17
+    b = (np.arange(n, dtype="int64") * 5) % 13
+    many = lambda: tuple(rand_chunks_for(rng, n) if rng.random() < 0.5 else _many_chunks(rng, n))  # noqa: E731
+    sources = [(a, (many(),)), (b, (many(),))]
+    base = ("elem", rng.choice(ELEM2), ("src", 0), ("src", 1))
+    k = rng.randint(2, n)
+    idx = tuple(sorted(rng.randrange(n) for _ in range(k))) if rng.random() < 0.7 else tuple(rng.randrange(n) for _ in range(k))
+    prog = ("take", base, idx, 0)
+    if rng.random() < 0.3:
+        prog = ("elem", "add", prog, ("const", 1))
+    return prog, sources, eval_np(prog, sources)
+
+
+def _many_chunks(rng, n):
+    k = min(n, rng.choice([3, 4, 5, 6, 8]))
+    cuts = sorted(rng.sample(range(1, n), k - 1))
+    return tuple(b - a for a, b in zip([0] + cuts, cuts + [n]))
+
+
+def arange_fftfreq(rng):
+    """a user-built float arange next to fftfreq with the same n / chunks: they share the arange tasks by name"""
+    n = rng.choice([6, 8, 12])
+    ch = rng.choice([c for c in [(n,), (n // 2, n // 2), (n // 3,) * 3] if sum(c) == n])
+    ar, ff = ("arangef", n, ch), ("fftfreq", n, rng.choice([1.0, 0.5]), ch)
+    kind = rng.choice(["stack", "add", "concat", "stack-rev"])
+    if kind == "stack":
+        prog = ("stack", (ar, ff), 0)
+    elif kind == "stack-rev":
+        prog = ("stack", (ff, ar), 0)
+    elif kind == "add":
+        prog = ("elem", "add", ar, ff)
+    else:
+        prog = ("concat", (("elem", "multiply", ar, ("const", 3)), ff), 0)
+    return prog, [], eval_np(prog, [])
+
+
+def slice_chain(rng):
+    """x[idx1][idx2] with stepped first slices and integers / slices second (the Slice(Slice) fusion rule)"""
+    rank = rng.choice([1, 2])
+    shape = tuple(rng.choice([5, 8, 10, 12]) for _ in range(rank))
+    data = np.arange(int(np.prod(shape)), dtype="int64").reshape(shape) + 1000
+    sources = [(data, tuple(rand_chunks_for(rng, n) for n in shape))]
+    idx1 = tuple(slice(rng.choice([None, 0, 1, 2]), rng.choice([None, n, n - 1]), rng.choice([1, 2, 2, 3])) for n in shape)
+    v1 = data[idx1]
+    idx2 = tuple((rng.randint(0, m - 1) if (m > 0 and rng.random() < 0.5) else slice(rng.choice([None, 0, 1]), None, rng.choice([None, 1, 2])))
+                 for m in v1.shape)
+    base = ("src", 0) if rng.random() < 0.5 else ("elem", "multiply", ("src", 0), ("const", 2))
+    prog = ("slice", ("slice", base, idx1), idx2)
+    return prog, sources, eval_np(prog, sources)
+
+
+def diag_equal_counts(rng):
+    """da.diag (k=0) of a 2-D array whose axes have the same NUMBER of blocks but not the same block sizes"""
+    k = rng.choice([1, 2, 2, 3])
+    r = [rng.randint(1, 4) for _ in range(k)]
+    c = [rng.randint(1, 4) for _ in range(k)]
+    if rng.random() < 0.5:
+        c = list(r)
+        rng.shuffle(c)
+    shape = (sum(r), sum(c))
+    data = np.arange(shape[0] * shape[1], dtype="int64").reshape(shape) + 1
+    prog = ("diag", ("src", 0))
+    sources = [(data, (tuple(r), tuple(c)))]
+    return prog, sources, eval_np(prog, sources)
